@@ -7,7 +7,7 @@ SV=${SVDIR:-/tmp/sv}
 mkdir -p $SV
 [ -d $SV/repo ] || git -C /repo worktree add --detach $SV/repo HEAD >/dev/null
 [ -d $SV/verif ] || cp -a /verif $SV/verif
-rsync -a --delete --exclude .lake --exclude evidence --exclude replays --exclude .git --exclude seeded --exclude check --exclude "t9_*" --exclude "t1[0-3]_*" /verif/ $SV/verif/
+rsync -a --delete --exclude .lake --exclude evidence --exclude replays --exclude .git --exclude seeded --exclude check /verif/ $SV/verif/
 git -C $SV/repo checkout -q -- . 
 cd $SV/verif
 (cd lean && lake build TWV twvdriver 2>&1 | grep -v '^✔' | tail -5)
